@@ -237,16 +237,11 @@ func compile(patterns []string, mode Mode) (*regexp.Regexp, error) {
 						}
 						b.WriteString(pat[:w])
 					case '[':
-						b.WriteByte('[')
 						pat = pat[w:]
 						r, w = utf8.DecodeRuneInString(pat)
 						switch r {
-						case utf8.RuneError:
-							if w == 0 {
-								break Pattern
-							}
-							b.WriteString(pat[:w])
 						case '.', '=', ':':
+							b.WriteByte('[')
 							b.WriteRune(r)
 							pat = pat[w:]
 							j := strings.Index(pat, string(r)+"]")
@@ -257,8 +252,9 @@ func compile(patterns []string, mode Mode) (*regexp.Regexp, error) {
 							w = j + 2
 							b.WriteString(pat[:w])
 						default:
-							b.WriteRune(r)
-							break Bracket
+							// an ordinary '[' inside the bracket expression
+							b.WriteString(`\[`)
+							continue Bracket
 						}
 					case ']':
 						b.WriteByte(']')
@@ -273,7 +269,7 @@ func compile(patterns []string, mode Mode) (*regexp.Regexp, error) {
 								break Pattern
 							}
 							b.WriteString(pat[:w])
-						case '!', '-', '[', ']', '^':
+						case '!', '-', '[', ']', '^', '\\':
 							b.WriteByte('\\')
 						}
 						b.WriteRune(r)
